@@ -548,6 +548,11 @@ class DataflowTransactionContext(ABC):  # pylint: disable=too-few-public-methods
                     # happens when bz/bnz is the last instruction in the contract and there is no default branch
                     default_branch = None
                     jump_branch = block.next[0]
+                    if len(block.exit_instr.next) == 2:
+                        # or when the branch target is the next instruction: the default and the jump
+                        # branch are the same block and it is reached for both outcomes.
+                        true_values = self._union(key, true_values, false_values)
+                        false_values = true_values
                 else:
                     default_branch = block.next[0]
                     jump_branch = block.next[1]
